@@ -18,6 +18,37 @@ fn wd(z: i128) -> Weekday {
     Weekday::from((z.rem_euclid(7)) as u8)
 }
 
+/// The built-in leap-second table read every way an iterator can be read: the same entries in the same order, 28 of them
+/// announced by IERS with offsets 10, 11, ..., 37 s at strictly increasing instants, the others (SOFA) all before them.
+fn builtin_table_walks() {
+    use hifitime::leap_seconds::{LatestLeapSeconds, LeapSecond};
+    let v: Vec<LeapSecond> = LatestLeapSeconds::default().collect();
+    let t = LatestLeapSeconds::default();
+    let mut k = 0;
+    for ls in LatestLeapSeconds::default() {
+        assert!(k < v.len() && ls == v[k] && t[k] == v[k], "for loop / index and collect disagree on the built-in table");
+        k += 1;
+    }
+    assert!(k == v.len());
+    let mut back: Vec<LeapSecond> = LatestLeapSeconds::default().rev().collect();
+    back.reverse();
+    assert!(back == v, "rev() walks other entries than the forward iteration");
+    for k in 0..=v.len() + 1 {
+        assert!(LatestLeapSeconds::default().skip(k).next() == v.get(k).copied(), "skip() disagrees with next()");
+        let mut it = LatestLeapSeconds::default();
+        assert!(it.nth(k) == v.get(k).copied() && it.next() == v.get(k + 1).copied(), "nth() disagrees with next()");
+        let rest: Vec<LeapSecond> = LatestLeapSeconds::default().skip(k).collect();
+        assert!(rest.len() == v.len().saturating_sub(k) && rest.iter().zip(v.iter().skip(k)).all(|(x, y)| x == y));
+    }
+    let every_other: Vec<LeapSecond> = LatestLeapSeconds::default().step_by(2).collect();
+    assert!(every_other.len() == (v.len() + 1) / 2 && every_other.iter().enumerate().all(|(i, x)| *x == v[2 * i]), "step_by(2) disagrees with next()");
+    assert!(LatestLeapSeconds::default().count() == v.len() && LatestLeapSeconds::default().last() == v.last().copied());
+    let iers: Vec<&LeapSecond> = v.iter().filter(|l| l.announced_by_iers).collect();
+    assert!(iers.len() == 28 && iers.iter().enumerate().all(|(i, l)| l.delta_at == (10 + i) as f64), "the announced entries are not 10 s .. 37 s");
+    assert!(iers.windows(2).all(|w| w[0].timestamp_tai_s < w[1].timestamp_tai_s));
+    assert!(v.iter().filter(|l| !l.announced_by_iers).all(|l| l.timestamp_tai_s < iers[0].timestamp_tai_s && l.delta_at < 10.0));
+}
+
 pub fn run(name: &str, a: &Args) -> Option<String> {
     Some(match name {
         "conv" => {
@@ -122,6 +153,7 @@ pub fn run(name: &str, a: &Args) -> Option<String> {
             pep(Epoch::max(&x, y))
         }
         "leap" => {
+            builtin_table_walks();
             let e = epoch(a, 0);
             let n = e.leap_seconds_iers();
             // the f64 accessor restricted to the announced entries is the same number
